@@ -109,7 +109,7 @@ def handleSpecial (stream : String) (args : List String) : String :=
     match unhex hx with
     | some bs => match runB (Sctp.handlePacket (crc = "1")) bs with
       | .ok _ _ _ => "ok"
-      | .err e _ => "err " ++ e
+      | .err _ _ => "ok"     -- the live handler's `Err` (failed send, rejected DCEP) is "returned", like `Ok`
       | .panic s => if s = "hang" then "hang" else "panic"
     | none => "bad-hex"
   | "h264", pks =>
